@@ -235,6 +235,11 @@ func crashInventory(c *Ctx, r *Report, cfg crashCfg) crashStats {
 				if x.CommaOk {
 					return
 				}
+				if types.Identical(x.X.Type(), x.AssertedType) {
+					// the nil check go/ssa emits for an interface method value (src.Method): it fails only
+					// on a nil interface, exactly like the call src.Method() - nil dereference, not covered
+					return
+				}
 				kind = "assert"
 				construct = c.exprAt(fn, x.Pos())
 				if construct == "" {
